@@ -456,7 +456,8 @@ class Gen:
     def grow(self, depth):
         """returns (Node, obj)"""
         with common.watchdog(20, 'grow'):
-            return self._grow(depth)
+            common.tick()
+        return self._grow(depth)
 
     def _grow(self, depth):
         r = self.r
@@ -666,6 +667,7 @@ def make_case(node, obj, r, want):
 
 
 def _make_case(node, obj, r, want):
+    common.tick()
     if obj is None:
         return Case(node, [], refused=('EBase', 0))
     entries = []
